@@ -46,8 +46,12 @@ EVENTS = {
     'fp-open-sq': ['parse_fp 0 %s' % hx("s = 'abc")],
     'eof-in-list': ['parse_buf 0 %s' % hx('l = {1, 2')],
     'eof-in-call': ['parse_buf 0 %s' % hx('include("good.conf"')],
+    'bare-open-dq': ['parse_buf 0 %s' % hx('s = "')],
+    'bare-open-sq': ['parse_buf 0 %s' % hx("s = '")],
+    'bare-open-comment': ['parse_buf 0 %s' % hx('i = 4 /*')],
+    'eof-in-call-args': ['parse_buf 0 %s' % hx('include("good.conf", "x"')],
 }
-QUICK_EVENTS = ['ok', 'open-dq', 'open-sq', 'open-comment', 'bad-escape', 'fail-in-include-1', 'fail-in-include-3', 'self-include', 'int-range',
+QUICK_EVENTS = ['bare-open-dq', 'bare-open-comment', 'eof-in-call-args', 'ok', 'open-dq', 'open-sq', 'open-comment', 'bad-escape', 'fail-in-include-1', 'fail-in-include-3', 'self-include', 'int-range',
                 'float-range', 'missing-include', 'reinit', 'second', 'eof-in-section', 'file-open-dq', 'eof-in-list']
 
 PROBES = [
@@ -100,6 +104,10 @@ def script(spec):
     lines.append('mon')
     for k in spec['probes']:
         lines += probe_lines(sid, k, 3 if (k == spec['probes'][0] and spec.get('pre', True)) else 2)
+    # the same probes into the history's own context: values accumulate there by design, but whether the text is accepted
+    # and what is reported must not depend on the aborted parses before it
+    for k in spec['probes']:
+        lines += ['note same%d' % k, 'initq 0 %d 0' % sid, 'parse_buf 0 %s' % hx(PROBES[k])]
     return '\n'.join(lines).replace('init? ', 'initq ')
 
 
@@ -156,6 +164,17 @@ def judge(spec, events, death):
             v.bad('after-%s:probe%d:%s' % (hist[-1], k, what),
                   'history %r then probe %r: %s differ from the fresh-process result: got rc=%s diags=%r, fresh rc=%s diags=%r' % (
                       hist, PROBES[k], what, got[0], got[2][:2], want[0], want[2][:2]))
+    for k in spec['probes']:
+        evs = g.get('same%d' % k)
+        if evs is None:
+            continue
+        r = [e for e in evs if e.get('ev') == 'r' and e.get('op') == 'parse_buf']
+        diags = [(unhx(e['file']), e['line'], unhx(e['msg'])) for e in evs if e.get('ev') == 'diag']
+        want = fresh[str(k)]
+        v.notes['same_context_probes'] = v.notes.get('same_context_probes', 0) + 1
+        if not r or r[0]['rc'] != want[0] or [list(x) for x in diags] != [list(x) for x in want[2]]:
+            v.bad('same-context:after-%s:probe%d' % (hist[-1], k), 'history %r then probe %r into the SAME context: rc=%s diags=%r, in a fresh process rc=%s diags=%r' % (
+                hist, PROBES[k], r[0]['rc'] if r else None, diags[:2], want[0], want[2][:2]))
     v.nontrivial = bool(aborted)
     return v
 
